@@ -235,6 +235,7 @@ def judge_abort_rules(sc, lines_in, impl_out):
     pre_rx = ref.rx_prefix_len(rxh)
     wftmax = p.get('wftmax', 0)
     out = []
+    n_wait = 0      # Wait frames read since the previous message ended (an upper bound of the layer's count for the current message)
     for r in trace.records(lines_in, impl_out):
         last_fc = None
         tx_busy_before = None
@@ -242,6 +243,12 @@ def judge_abort_rules(sc, lines_in, impl_out):
             if e['k'] == 'rx' and ref.reception_condition(rxh, e['id'], e['ext'], e['data']):
                 c = ref.classify(e['data'][pre_rx:])
                 last_fc = c if c[0] == 'fc' else None
+                if c[0] == 'fc' and c[1] == 1:
+                    n_wait += 1     # (not reset at a ContinueToSend: one that is not honoured, e.g. during standby, does not reset the layer's count)
+            elif e['k'] == 'done':
+                n_wait = 0
+            elif e['k'] == 'err' and e['name'] == 'MaximumWaitFrameReachedError' and wftmax > 0 and n_wait <= wftmax:
+                out.append(('abort', 'MaximumWaitFrameReachedError after %d Wait frame(s) for this message although wftmax=%d' % (n_wait, wftmax)))
             elif e['k'] == 'err' and last_fc is not None:
                 st = last_fc[1]
                 if st == 2 and e['name'] not in ('OverflowError', 'FlowControlTimeoutError'):
